@@ -123,6 +123,10 @@ func init() {
 }
 
 func validateModel(c *fw.Ctx) bool {
+	if !impl.DelegateAvailable {
+		c.Broken("the implementation no longer exposes ToASCII / DecodePercentEncoded on its parser value: the harness binding (IDNA delegate) is gone, nothing can be concluded")
+		return false
+	}
 	rep := model.ValidateWPT()
 	c.Count("model_wpt_parse_vectors_used", 0)
 	if c.Shard == 0 {
